@@ -31,6 +31,9 @@ type vsVal struct {
 	// pending: an assumption about the value the instruction will produce the next time the path executes it
 	// (used to assume something about "the element of this iteration"); it is not a fact yet
 	pending bool
+	// sticky: the assumption holds for every execution of the instruction (a field that does not change during the
+	// exploration: "the option's kind is K"), not only for the next one
+	sticky bool
 }
 
 type triEnv map[ssa.Value]vsVal
@@ -100,6 +103,11 @@ func evalConst(v ssa.Value, env triEnv) constant.Value {
 	}
 	if t, ok := env[v]; ok && !t.pending {
 		return t.c
+	}
+	for _, o := range sameValueClass(v) {
+		if t, ok := env[o]; ok && !t.pending && t.c != nil {
+			return t.c
+		}
 	}
 	// a constant lookup table applied to a known key (consttable.go)
 	if tab, key, half := tableLookup(v); tab != nil {
@@ -272,8 +280,16 @@ func (g *IG) relevantValues() map[ssa.Value]bool {
 		}
 	}
 	for v, n := range tested {
-		if n >= 2 {
+		// a value tested once here and once through a value known to equal it (gvn.go) is tested twice
+		total := n
+		for _, o := range sameValueClass(v) {
+			total += tested[o]
+		}
+		if total >= 2 {
 			rel[v] = true
+			for _, o := range sameValueClass(v) {
+				rel[o] = true
+			}
 		}
 	}
 	g.relevant = rel
@@ -293,10 +309,13 @@ func (g *IG) factLiveness(rel map[ssa.Value]bool, cacheable bool) map[*ssa.Basic
 		if !rel[v] {
 			return
 		}
-		if uses[v] == nil {
-			uses[v] = map[*ssa.BasicBlock]bool{}
+		// a use of a value keeps what is known about the values equal to it alive as well
+		for _, m := range append([]ssa.Value{v}, sameValueClass(v)...) {
+			if uses[m] == nil {
+				uses[m] = map[*ssa.BasicBlock]bool{}
+			}
+			uses[m][b] = true
 		}
-		uses[v][b] = true
 	}
 	var operandsOfCond func(v ssa.Value, b *ssa.BasicBlock, depth int)
 	operandsOfCond = func(v ssa.Value, b *ssa.BasicBlock, depth int) {
@@ -609,7 +628,7 @@ func (g *IG) reachVSInit(starts []int, stop func(ssa.Instruction) bool, edgeOK f
 								nenv[a] = t
 							}
 						}
-						if old.pending {
+						if old.pending || old.sticky {
 							old.pending = false
 							nenv[v] = old // the assumption applies to this execution
 						}
@@ -625,6 +644,12 @@ func (g *IG) reachVSInit(starts []int, stop func(ssa.Instruction) bool, edgeOK f
 		for ki, m := range g.succ[last] {
 			iff, isIf := in.(*ssa.If)
 			if isIf && b.Succs[0] != b.Succs[1] {
+				if os.Getenv("GOCHK_VS_TRACE") != "" {
+					if bo, ok := iff.Cond.(*ssa.BinOp); ok && bo.X.Name() == os.Getenv("GOCHK_VS_TRACE") {
+						t, had := env[bo.X]
+						fmt.Fprintf(os.Stderr, "TRACE block %d cond %s: env has=%v val=%v pending=%v eval=%d\n", b.Index, bo, had, t.c, t.pending, evalTri(iff.Cond, env))
+					}
+				}
 				if v := evalTri(iff.Cond, env); (v == 2 && ki == 1) || (v == 1 && ki == 0) {
 					continue
 				}
